@@ -3,11 +3,12 @@
 current tree (tools/seedcheck.sh applies the patch, runs the check, reverts) and updates meta.json:detection."""
 import glob, json, os, subprocess, sys
 V = os.path.dirname(os.path.dirname(os.path.abspath(__file__)))
-want = set(a.upper() for a in sys.argv[1:])
+want = set(a.upper() for a in sys.argv[1:] if "/" not in a)
+want_seed = set(a.upper() for a in sys.argv[1:] if "/" in a)     # e.g. C18/6
 for mf in sorted(glob.glob(os.path.join(V, "seeded", "*", "*", "meta.json"))):
     d = os.path.dirname(mf)
     pid = d.split(os.sep)[-2]
-    if want and pid not in want:
+    if (want or want_seed) and pid not in want and ("%s/%s" % (pid, d.split(os.sep)[-1])) not in want_seed:
         continue
     if json.load(open(mf)).get("superseded"):
         continue
